@@ -77,8 +77,48 @@ def _gen_prop(pid):
     return run
 
 
+def _c08(res):
+    theorems = ["Props.c08_declared", "Props.c08_no_duplicate_key", "Props.c08_no_unused", "Props.c08_wf"]
+    broken, model_ok = gen.prepare(res, "Gvlean.Props.C08", theorems)
+    if broken is None:
+        return
+    rows, _ = gen.run_harness("c08", res.tier, res.seed, "is,iface,vet")
+    ev = gen.evaluate(rows, model_ok, ["gen_fail", "build", "gofmt"])
+    # model's well-formedness verdict vs the Go type checker's
+    wf = gen.C.drive("modeldrv", ["wf\t" + r["decl_sexp"] for r in rows]) if model_ok and rows else [None] * len(rows)
+    wf_ties, vet_notes = [], 0
+    dist = ev["dist"]
+    for r, a in zip(rows, wf):
+        if r.get("vet") not in (None, "", "ok"):
+            vet_notes += 1
+        if a is None or not r.get("file"):
+            continue
+        dist["model:" + a.split(" ")[0]] = dist.get("model:" + a.split(" ")[0], 0) + 1
+        if (a == "wf") != bool(r.get("builds")):
+            wf_ties.append((r, a))
+    gen.fill_coverage(res, ev, rows, "corr-gen on the C08 grammar: a fixed corpus of documented shapes (error-variable name collisions, equal field names in different nested structs, "
+                      "struct-level markers over nested structs, multi-name nested structs, dotted-path collisions, enum items needing escaping) followed by random packages of 1-3 structs "
+                      "with 1..40 fields, 0..5 markers per field, struct-level markers, nesting to depth 3; every package is generated by the real binary, gofmt -l, go build and go vet "
+                      "are run on it together with a driver that asserts `var _ govalid.Validator = (*T)(nil)`, `var _ govalid.ContextValidator = (*T)(nil)` and the types of ValidateT / "
+                      "ValidateTContext; the model's wfFile verdict is compared with the build result; distinct = (declaration, value)", ev["nvalues"])
+    res.cov["model_wf_vs_build_disagreements"] = len(wf_ties)
+    res.cov["go_vet_style_notes"] = vet_notes
+    res.assumptions += ["`type-checks` = go build of the package with the generated files and the assertion driver succeeds; go vet is run and its style diagnostics (e.g. `redundant and` for a duplicated enum item) are recorded but are not type errors",
+                        "length / format rules on fields of NAMED string types and ordered rules on complex fields are outside the documented (marker, type) table"]
+
+    def known_match(k, aspect, item):
+        r = item if isinstance(item, dict) else item[0]
+        return k.get("match", {}).get("decl_sexp") == r["decl_sexp"]
+    ev2 = dict(ev)
+    ev2["struct"] = [x for x in ev["struct"] if x[0].get("builds")]   # the dump of a file that does not compile is not meaningful
+    gen.report(res, ev2, broken + ([("corr-gen-wf", "Gen.wfFile and go build disagree on %d declaration(s); first %s/%s: model %s, builds=%s\n%s" % (
+        len(wf_ties), wf_ties[0][0]["scenario"], wf_ties[0][0]["decl"], wf_ties[0][1], wf_ties[0][0].get("builds"), wf_ties[0][0].get("build_err", "")[:600]))] if wf_ties else []),
+        ["gen_fail", "build", "gofmt"], known_match)
+
+
 TABLE = {
     **{pid: {"run": _gen_prop(pid), "replay": gen.replay, "level": "proof"} for pid in GEN},
+    "C08": {"run": _c08, "replay": gen.replay, "level": "proof"},
     "C14": {"run": iso.run, "replay": iso.replay, "level": "proof"},
     "C20": {"run": mw.run, "replay": mw.replay, "level": "proof"},
     "C18": {"run": mig.run, "replay": mig.replay, "level": "proof"},
